@@ -14,13 +14,18 @@ LEVEL = "proof"
 LEAN_IMPORTS = ["WM.Props.C03"]
 THEOREMS = ["WM.C03.snapshot_partial", "WM.C03.snapshot_full_false", "WM.C03.fresh", "WM.C03.fresh_interleaved",
             "WM.C03.refresh_eq_fresh", "WM.C03.up_to_date_partial", "WM.C03.up_to_date_full_false",
-            "WM.C03.safe_freshNames", "WM.C03.holds_at", "WM.FS.open_linearizable"]
+            "WM.C03.safe_freshNames", "WM.C03.holds_at", "WM.FS.open_linearizable",
+            "WM.C03.refresh_interleaved", "WM.FS.refresh_linearizable", "WM.FS.searcher_refresh_linearizable",
+            "WM.C03.same_is_fresh"]
 PARTIAL = {
     "WM.C03.snapshot_partial": "hypothesis EagerHandles (every file the reader reads was opened at construction); "
                                "false for loose (compound=False) segments, whose column / vector files "
                                "W3PerDocReader opens lazily: snapshot_full_false is the Lean witness, "
                                "the held-searcher stream shows it on the real code",
-    "WM.C03.refresh_eq_fresh": "full for searchers obtained from the index (readers built from a TOC); a searcher handed out by "
+    "WM.C03.refresh_eq_fresh": "this statement evaluates refresh on one directory (atomic); the interleaved versions are "
+                               "C03.refresh_interleaved / FS.refresh_linearizable (ix.reader(reuse) step by step with recycling "
+                               "and retry) and FS.searcher_refresh_linearizable (up-to-date check + recycling open). "
+                               "Full for searchers obtained from the index (readers built from a TOC); a searcher handed out by "
                                "BufferedWriter has an unversioned in-memory leaf that _reader(reuse) carries over (required by "
                                "tests/test_searching.py::test_buffered_refresh): after the buffer is flushed its refresh shows "
                                "the buffered documents twice (recorded finding, buffered-refresh stream)",
@@ -34,7 +39,9 @@ RULE = ("deterministic schedule enumeration: at every storage-event boundary of 
         "transaction or the probed reader is older than the newest generation; _reader(reuse=...) is additionally "
         "compared with the Lean mirror on every refresh; race-open stream: whole commits (1-2, every merge policy) are run "
         "at boundary b=0..6 *inside* the storage-call sequence of one ix.reader() call so that its retry loop runs, and "
-        "the Lean step machine mrun predicts generation and pinned files (non-trivial = the commits fired)")
+        "the Lean step machines mrun / xmrun (with recycling) predict generation, segments and the files "
+        "(re)opened (non-trivial = the commits fired); a cold searcher (opened before, first read after each "
+        "transaction) exercises lazily opened files")
 ASSUMPTIONS = [
     "POSIX unlink-while-open / mmap keep the data of an open file readable (handles pin inodes)",
     "single-process schedules: reader steps run between two storage events of the writer, not inside one (true "
@@ -120,8 +127,21 @@ def _history_job(job):
         longheld = None     # (searcher, dump at open time, generation, txn index, listing at open)
         lag = [None]        # a searcher that is refreshed only now and then, across several generations
         for ti in range(job["ntxn"]):
-            txn = T.gen_txn(rng, state, force={"compound": compound})
+            if job.get("deadline") and time.time() > job["deadline"] and ti > 0:
+                out["stopped"] = True
+                break
+            if job.get("script"):
+                txn = dict(job["script"][ti], compound=compound)
+                txn["ops"] = [list(op) if op[0] == "undelete" else (op[0], dict(op[1]) if isinstance(op[1], dict) else op[1])
+                              for op in txn["ops"]]
+            else:
+                txn = T.gen_txn(rng, state, force={"compound": compound})
             gen_old = ix.latest_generation()
+            # a searcher that is opened now but not read from before the transaction is over: whatever
+            # it opens lazily is opened after the commit's clean-up
+            cold = ix.searcher()
+            searchers.append(cold)
+            cold_desc = _describe(cold.reader())
             tr.enabled = True
             tr.events[:] = []
             tr.actor = "rc:held"
@@ -142,6 +162,7 @@ def _history_job(job):
             construct_events = list(tr.events)
 
             wcount = [0, 0]   # events scanned, writer events among them
+            finishing = [False]
 
             def hook(tracer, k):
                 evs = tracer.events
@@ -149,6 +170,8 @@ def _history_job(job):
                     if evs[wcount[0]][0] == "w":
                         wcount[1] += 1
                     wcount[0] += 1
+                if job.get("stride") and wcount[1] % job["stride"] and not finishing[0]:
+                    return
                 rec = {"k": wcount[1]}
                 tracer.actor = "rp:held"
                 rec["held"] = _safe_dump(held)
@@ -209,6 +232,7 @@ def _history_job(job):
             except Exception as e:  # noqa
                 outcome = "error"
                 err = "%s: %s" % (T.errname(e), str(e)[:200])
+            finishing[0] = True
             tr.finish()
             tr.hook = None
             tr.enabled = False
@@ -218,6 +242,8 @@ def _history_job(job):
             dump_new = T.dump_reader(r1)
             r1.close()
             docs_new = T.model_apply(docs, txn)
+            cold_dump = _safe_dump(cold)
+            listing_end = sorted(st.list())
             lagrec = None
             if lag[0] is None:
                 lag[0] = ix.searcher()
@@ -256,7 +282,7 @@ def _history_job(job):
                 "gen_new": ix.latest_generation(), "wevents": wevents,
                 "dump_old": (st_d0, dump_old), "dump_new": dump_new, "probes": probes, "refreshes": refreshes,
                 "model_new": T.stored_of_model(docs_new), "listing0": listing0, "held_desc": held_desc,
-                "lag": lagrec,
+                "lag": lagrec, "cold": (cold_dump, cold_desc, listing_end),
                 "long": None if longheld is None else {"dump": longheld[1], "gen": longheld[2], "since": longheld[3],
                                                        "listing": longheld[4], "desc": longheld[5]},
                 "eager": {role: (sorted(v["rc"]), sorted(v["rp"])) for role, v in roles.items()
@@ -299,6 +325,13 @@ def _judge_history(ctx, h, reqs):
         ctx.stat("config:" + cfgname)
         ctx.stat("outcome:" + t["outcome"])
         ctx.stat("merge:" + t["txn"]["merge"])
+        for op in t["txn"]["ops"]:
+            if op[0] == "undelete":
+                ctx.stat("op:undelete+delete-in-same-segment" if op[1] else "op:undelete-not-applicable")
+            else:
+                ctx.stat("op:" + op[0])
+        if t["txn"].get("schema"):
+            ctx.stat("op:schema-" + t["txn"]["schema"])
         if t["error"]:
             ctx.violation("writer-transaction-raises", {"seed": h["seed"], "txn": ti, "config": cfgname},
                           "completes", t["error"])
@@ -381,6 +414,14 @@ def _judge_history(ctx, h, reqs):
                     else:
                         ctx.violation("Searcher.up_to_date:after-refresh", case, True, p.get("third_utd"),
                                       "a refreshed searcher does not report being up to date")
+        # --- the cold searcher: opened before the transaction, first read after it
+        if t.get("cold") and st_old == "ok":
+            cold_dump, cold_desc, listing_end = t["cold"]
+            case = dict(case0, boundary="end", role="cold-held")
+            ctx.case(("cold", cfg, canon, ti > 0), nontrivial=committed)
+            ctx.stat("probe:cold")
+            _judge_held(ctx, "cold-held", cold_dump, (st_old, dump_old), cold_desc, t["listing0"], listing_end,
+                        cfg, case)
         # --- the lagging searcher, refreshed after the transaction across one or more generations
         lg = t.get("lag")
         if lg is not None:
@@ -524,18 +565,60 @@ def _judge_refresh(ctx, payload, ans):
         ctx.divergence("FileIndex._reader(reuse)", case, model, impl)
 
 
-def _run_histories(ctx, stream, scratch, per_config, ntxn, seeds=None):
+def _doc(i, **kw):
+    d = {"k": u"k%d" % i, "t": u"alfa bravo" if i % 2 else u"charlie", "g": u"alfa", "n": i}
+    d.update(kw)
+    return d
+
+
+def _scripts():
+    """Hand-written histories aimed at what decides whether a sub-reader may be recycled: the
+    deletion *set* of a surviving segment (second deletion on a segment that already has one;
+    a deletion taken back while another document of the segment is deleted: same count, other
+    set) and the schema (field added / removed while an older segment survives)."""
+    def txn(ops, merge="nomerge", schema=None, outcome="commit"):
+        return {"ops": ops, "merge": merge, "schema": schema, "outcome": outcome, "compound": True}
+    a = [txn([("add", _doc(i)) for i in range(6)]),
+         txn([("delete", u"k1")]),
+         txn([("delete", u"k2"), ("add", _doc(6))]),
+         txn([["undelete", None]]),
+         txn([("add", _doc(7))], schema="add"),
+         txn([("delete", u"k3"), ["undelete", None]]),
+         txn([("add", _doc(8))], schema="remove")]
+    b = [txn([("add", _doc(i)) for i in range(4)]),
+         txn([("add", _doc(4))], schema="add"),
+         txn([("delete", u"k0")]),
+         txn([("delete", u"k4")]),
+         txn([["undelete", None], ("update", _doc(2))]),
+         txn([["undelete", None]], merge="default"),
+         txn([("add", _doc(5))], merge="optimize")]
+    return {"deletion-sets": a, "schema-then-deletions": b}
+
+
+def _run_histories(ctx, stream, scratch, per_config, ntxn, seeds=None, deadline=None):
     jobs = []
     configs = [(c, m, r) for c in (True, False) for m in (True, False) for r in (False, True)]
     i = 0
+    if stream == "main" and not seeds:
+        for name, script in sorted(_scripts().items()):
+            for cfg in [(True, True, False), (False, True, False), (True, False, True), (False, False, True)]:
+                jobs.append({"seed": "%s:%s:script:%s:%d" % (ID, ctx.seed, name, i), "config": cfg,
+                             "ntxn": len(script), "scratch": scratch, "script": script, "stride": 4})
+                i += 1
     for rep in range(per_config):
         for cfg in configs:
             jobs.append({"seed": "%s:%s:%s:%d" % (ID, ctx.seed, stream, i), "config": cfg, "ntxn": ntxn,
-                         "scratch": scratch})
+                         "scratch": scratch, "deadline": deadline})
             i += 1
     if seeds:
         jobs = seeds
     results = ctx.pmap(history_job, jobs)
+    done = sum(len(h["txns"]) for h in results)
+    ctx.stat("%s:transactions-planned" % stream, sum(j["ntxn"] for j in jobs) if not seeds else done)
+    ctx.stat("%s:transactions-done" % stream, done)
+    cut = sum(1 for h in results if h.get("stopped"))
+    if cut:
+        ctx.note("%s stream: wall-clock bound reached, %d histories cut short (%d transactions done)" % (stream, cut, done))
     reqs = []
     for h in results:
         _judge_history(ctx, h, reqs)
@@ -546,7 +629,7 @@ def _run_histories(ctx, stream, scratch, per_config, ntxn, seeds=None):
             lines.append(txt % tab.sexp())
         else:
             lines.append(req)
-    answers = ctx.driver.ask(lines)
+    answers = ctx.driver.ask_parallel(lines)
     for (kind, payload, _req), ans in zip(reqs, answers):
         if kind == "refresh":
             _judge_refresh(ctx, payload, ans)
@@ -638,10 +721,11 @@ def soak_job(job):
         state = {"next": 0, "live": []}
         for i in range(job["ntxn"]):
             txn = T.gen_txn(rng, state, force={"compound": compound, "outcome": "commit", "schema": None})
-            new = T.model_apply(docs, txn)
             with lock:
                 # published under the lock so readers never see a generation we have not recorded
                 T.run_txn(ix, txn)
+                # (the model is applied after the run: an undelete operation records what it did)
+                new = T.model_apply(docs, txn)
                 states[ix.latest_generation()] = sorted(new)
             docs = new
             state["live"] = sorted(int(k[1:]) for k in docs)
@@ -675,6 +759,8 @@ def _soak(ctx, scratch):
 # FileIndex.reader really runs; the Lean step machine `mrun` predicts where the reader ends up.
 
 def race_job(job):
+    if job.get("deadline") and time.time() > job["deadline"]:
+        return {"seed": job["seed"], "config": job["config"], "skipped": True}
     try:
         return _race_job(job)
     except Exception as e:  # noqa
@@ -735,9 +821,11 @@ def _race_job(job):
             state["live"] = sorted(int(k[1:]) for k in docs)
         mode = job.get("mode", "open")
         s0 = None
+        toc_open = None
         if mode == "refresh":
             # a searcher that is one generation behind when the traced refresh() starts
             s0 = ix.searcher()
+            toc_open = _order_files(T.toc_info(st, IX, ix.latest_generation()))
             txn = T.gen_txn(rng, state, force={"compound": compound, "outcome": "commit", "merge": "nomerge",
                                                "schema": None})
             txn["ops"].append(("add", T.gen_doc(rng, state["next"])))
@@ -802,7 +890,8 @@ def _race_job(job):
             try:
                 tr.hook = None
                 tr.enabled = False
-                got = {"gen": rd.generation(), "dump": T.dump_reader(rd), "kind": type(rd).__name__}
+                got = {"gen": rd.generation(), "dump": T.dump_reader(rd), "kind": type(rd).__name__,
+                       "leaves": [l[0] for l in _describe(rd)[2]]}
             finally:
                 rd.close()
         except Exception as e:  # noqa
@@ -810,6 +899,7 @@ def _race_job(job):
         tr.hook = None
         tr.enabled = False
         return {"seed": job["seed"], "config": job["config"], "boundary": at, "events": list(tr.events), "mode": mode,
+                "toc_open": toc_open, "leaves": None if got is None else got.get("leaves"),
                 "entries0": entries0, "states": states, "got": got, "error": err, "fired": fired[0], "txns": txns}
     finally:
         shutil.rmtree(base, ignore_errors=True)
@@ -839,11 +929,15 @@ def _race_request(r):
                 if m and int(m.group(1)) in r["states"]:
                     steps.append("(t %d %s)" % (tab(ev[2]), T.toc_sexp(tab, r["states"][int(m.group(1))]["toc"])))
     steps += ["r", "r"]
-    line = "c03 mrun %s %s %s 10 (%s)" % (T.name_sexp(IX), "%s", fs, " ".join(steps))
+    if r.get("mode") == "refresh":
+        line = "c03 xmrun %s %s %s %s 10 (%s)" % (T.name_sexp(IX), "%s", fs, T.toc_sexp(tab, r["toc_open"]),
+                                                  " ".join(steps))
+    else:
+        line = "c03 mrun %s %s %s 10 (%s)" % (T.name_sexp(IX), "%s", fs, " ".join(steps))
     return line % tab.sexp(), sorted(opened)
 
 
-def _races(ctx, scratch, only=None):
+def _races(ctx, scratch, only=None, deadline=None):
     jobs = []
     configs = [(c, m, r) for c in (True, False) for m in (True, False) for r in (False, True)]
     i = 0
@@ -862,7 +956,15 @@ def _races(ctx, scratch, only=None):
                  for (c, m, r) in configs}
         jobs = [{"seed": only["seed"], "config": names[only["config"]], "boundary": only["reader_boundary"],
                  "scratch": scratch, "mode": only.get("mode", "open")}]
-    results = ctx.pmap(race_job, jobs, chunksize=4)
+    else:
+        # interleave the boundaries / modes so that a run cut by the wall-clock bound still covers all
+        order = ctx.rng("race-order")
+        order.shuffle(jobs)
+        for j in jobs:
+            j["deadline"] = deadline
+    results = [r for r in ctx.pmap(race_job, jobs, chunksize=4) if not r.get("skipped")]
+    ctx.stat("race:jobs-planned", len(jobs))
+    ctx.stat("race:jobs-done", len(results))
     lines, keep = [], []
     for r in results:
         cfg = r["config"]
@@ -895,8 +997,6 @@ def _races(ctx, scratch, only=None):
                 ctx.violation("ix.reader():mixture-of-generations", dict(case, commits=r["txns"]),
                               T.dump_keys(r["states"][g]["dump"]), T.dump_keys(r["got"]["dump"]),
                               "a reader opened while a commit completed shows neither the old nor the new state")
-        if mode == "refresh":
-            continue      # recycling is not part of the step machine; the end state was checked above
         line, opened = _race_request(r)
         lines.append(line)
         keep.append((r, case, opened))
@@ -907,6 +1007,20 @@ def _races(ctx, scratch, only=None):
             ctx.divergence("FileIndex.reader (step machine)", case, ans, [r["got"]["gen"], opened])
             continue
         mgen = int(p[1])
+        if r.get("mode") == "refresh":
+            # recycling open: generation, the segments in order, and which files the last attempt
+            # opened (= the segments that were not recycled)
+            ctx.stat("race-refresh:compared-with-recycling-machine")
+            ctx.stat("race-refresh:files-reopened", len(opened))
+            msids = ["".join(chr(int(c)) for c in n) for n in p[2]]
+            mnames = sorted("".join(chr(int(c)) for c in n) for n in p[3])
+            impl_gen = r["got"]["gen"]
+            if r["got"]["kind"] == "EmptyReader":
+                impl_gen = mgen
+            if mgen != impl_gen or msids != r["leaves"] or mnames != opened:
+                ctx.divergence("FileIndex.reader(reuse) (step machine with recycling)", dict(case, commits=r["txns"]),
+                               [mgen, msids, mnames], [r["got"]["gen"], r["leaves"], opened])
+            continue
         mnames = sorted("".join(chr(int(c)) for c in n) for n in p[2])
         impl_gen = r["got"]["gen"]
         if r["got"]["kind"] == "EmptyReader":
@@ -971,14 +1085,19 @@ def _buffered_refresh(ctx, scratch):
 def run(ctx):
     _corpus(ctx)
     with ctx.scratch() as scratch:
+        quick = ctx.tier == "quick"
+        # wall-clock bounds (from the start of the check): boosted budgets or a loaded machine mean
+        # fewer cases, not a longer run
         _buffered_refresh(ctx, scratch)
-        _races(ctx, scratch)
-        _run_histories(ctx, "main", scratch, per_config=ctx.budget(2, 12), ntxn=ctx.budget(4, 6))
+        _races(ctx, scratch, deadline=ctx.t0 + (25 if quick else 200))
+        _run_histories(ctx, "main", scratch, per_config=ctx.budget(2, 12), ntxn=4 if quick else 6,
+                       deadline=ctx.t0 + (55 if quick else 480))
         if ctx.tier == "thorough":
             _soak(ctx, scratch)
         unexpected = [v for v in ctx.violations if not _is_listed(v["signature"])]
         if ctx.divergences or unexpected:
-            _run_histories(ctx, "search", scratch, per_config=ctx.budget(2, 6), ntxn=5)
+            _run_histories(ctx, "search", scratch, per_config=ctx.budget(2, 6), ntxn=5,
+                           deadline=time.time() + (15 if quick else 120))
 
 
 def _is_listed(sig):
